@@ -335,6 +335,14 @@ struct Exec {
     /// of a re-created writer (its opstamp equals the commit opstamp: a merge of committed
     /// segments, whose target is that opstamp, applies and publishes it)
     f8_cands: BTreeSet<u64>,
+    /// second manifestation of F8: the same first delete is LOST for the documents of a committed
+    /// segment whose delete_opstamp equals the commit opstamp (`advance_deletes` returns early:
+    /// "already up to date") when a merge gives the merged segment the advanced cursor of another
+    /// source: committed documents matched by that delete whose segment had
+    /// delete_opstamp == opstamp at writer creation
+    f8_lost_cands: BTreeSet<u64>,
+    /// delete_opstamp of the segment of every published document at the last check point
+    last_seg_delop: BTreeMap<u64, Option<u64>>,
     /// documents added by a producer thread and deleted later by the SAME thread inside one
     /// concurrent block in which another thread also adds (every linearisation deletes them)
     f10_cands: BTreeSet<u64>,
@@ -415,6 +423,8 @@ impl Exec {
             f3_extra: BTreeSet::new(),
             dirty_delete_all: false,
             f8_cands: BTreeSet::new(),
+            f8_lost_cands: BTreeSet::new(),
+            last_seg_delop: BTreeMap::new(),
             f10_cands: BTreeSet::new(),
             producer_race_seen: false,
             first_del: false,
@@ -527,6 +537,9 @@ impl Exec {
             self.first_del = true;
             for id in self.committed.iter().filter(|i| q_matches(q, **i)) {
                 self.f8_cands.insert(*id);
+                if self.last_seg_delop.get(id).cloned().flatten() == Some(self.session_start) {
+                    self.f8_lost_cands.insert(*id);
+                }
             }
         }
         if self.tainted(op) {
@@ -910,10 +923,15 @@ impl Exec {
         let mut fast = vec![];
         let mut field_errors = vec![];
         let mut seg_of: BTreeMap<u64, usize> = BTreeMap::new();
+        let mut delops: BTreeMap<u64, Option<u64>> = BTreeMap::new();
         self.nsegs_max = self.nsegs_max.max(searcher.segment_readers().len());
         let mut total = 0u64;
         for (ord, sr) in searcher.segment_readers().iter().enumerate() {
             let col = sr.fast_fields().u64("id").map_err(|e| e.to_string())?;
+            if std::env::var("C02_DIAG_ALL").is_ok() {
+                let all: Vec<(u32, Option<u64>, bool)> = (0..sr.max_doc()).map(|d| (d, col.first(d), sr.alive_bitset().map_or(true, |b| b.is_alive(d)))).collect();
+                eprintln!("DIAG checkpoint {} segment {} ord {} docs(doc,id,alive) {:?}", self.checkpoints, sr.segment_id().uuid_string(), ord, all);
+            }
             let gcol = sr.fast_fields().u64("grp").map_err(|e| e.to_string())?;
             total += sr.num_docs() as u64;
             for doc in sr.doc_ids_alive() {
@@ -928,6 +946,7 @@ impl Exec {
                     Some(id) => {
                         stored.push(id);
                         seg_of.insert(id, ord);
+                        delops.insert(id, sr.delete_opstamp());
                         let tag = d.get_first(self.f.tag).and_then(|v| v.as_str().map(|s| s.to_string()));
                         let body = d.get_first(self.f.body).and_then(|v| v.as_str().map(|s| s.to_string()));
                         let grp = d.get_first(self.f.grp).and_then(|v| v.as_u64());
@@ -971,6 +990,7 @@ impl Exec {
         stored.sort();
         fast.sort();
         by_term.sort();
+        self.last_seg_delop = delops;
         Ok((stored, fast, by_term, field_errors, seg_of))
     }
 
@@ -1051,9 +1071,12 @@ self.storage_error("C02:searcher-unreadable", format!("after {how}: {e}"), out);
             ctx.report.count("checkpoint:differs-from-replay");
             let (mut f2, mut f3e, mut other_e) = (vec![], vec![], vec![]);
             let mut f10 = vec![];
+            let mut f8l = vec![];
             for id in &extra {
                 if self.f10_cands.contains(id) {
                     f10.push(*id);
+                } else if lean_first && self.first_del && self.merge_possible && self.f8_lost_cands.contains(id) {
+                    f8l.push(*id);
                 } else if !lean_clean && self.f2_cands.contains(id) {
                     f2.push(*id);
                 } else if !lean_clean && self.f3_extra.contains(id) {
@@ -1075,6 +1098,9 @@ self.storage_error("C02:searcher-unreadable", format!("after {how}: {e}"), out);
             }
             if !f8.is_empty() {
                 out.push(Finding { kind: "oracle", key: K_F8.into(), what: format!("after {how}: documents {:?} were removed and published without a commit: the first delete of a re-created writer has the opstamp of the last commit and a merge of committed segments (target = that opstamp) applied it", f8) });
+            }
+            if !f8l.is_empty() {
+                out.push(Finding { kind: "oracle", key: K_F8.into(), what: format!("after {how}: documents {:?} survive the first delete of a re-created writer: it has the opstamp of the last commit, their segment has delete_opstamp == that opstamp, so advance_deletes(target = that opstamp) skips it as up to date while the merged segment takes the cursor of another, advanced source", f8l) });
             }
             if !f10.is_empty() {
                 self.producer_race_seen = true;
@@ -1841,7 +1867,13 @@ fn run_case(ctx: &mut Ctx, case: &Case) -> Vec<Finding> {
             e.apply(ctx, op, case, &mut found);
         }
         if let Dir::V(v) = &e.dir {
-            if let Some(f) = found.iter().find(|f| f.what.contains("FileDoesNotExist")) {
+            if let Some(f) = found.iter().find(|f| f.what.contains("FileDoesNotExist") || (std::env::var("C02_DIAG_ALL").is_ok() && (f.key.contains("unexpected-survivor") || f.key.contains("missing-document")))) {
+                eprintln!("DIAG finding {} {}", f.key, f.what);
+                if let Ok(metas) = e.index.searchable_segment_metas() {
+                    for m in metas {
+                        eprintln!("DIAG meta {} max_doc={} deleted={} delete_opstamp={:?}", m.id().uuid_string(), m.max_doc(), m.num_deleted_docs(), m.delete_opstamp());
+                    }
+                }
                 let name = f.what.split('"').nth(1).unwrap_or("").trim_end_matches('\\').to_string();
                 let stem = name.split('.').next().unwrap_or("").to_string();
                 let tids = TIDS.lock().unwrap().clone();
@@ -1945,6 +1977,9 @@ fn corpus() -> Vec<Case> {
         // the same with the delete as *second* operation: must equal the replay (a difference here
         // would be a new violation, not F8)
         Case { config: Config { threads: 1, cut: 1, policy: 2, mmap: false, sort: 0 }, ops: vec![HOp::Add(1), HOp::Add(2), HOp::Add(3), HOp::Commit, HOp::DropReopen(true), HOp::Add(4), HOp::DelTerm(Q::Grp(doc_grp(2))), HOp::Add(5), HOp::Add(6), HOp::WaitMergeReopen] },
+        // F8, second manifestation (lost delete): a committed segment with delete_opstamp = commit
+        // opstamp, reopen, first operation a delete matching one of its documents, merge
+        Case { config: Config { threads: 1, cut: 2, policy: 0, mmap: false, sort: 0 }, ops: vec![HOp::Add(1), HOp::Add(2), HOp::Add(3), HOp::Add(4), HOp::DelTerm(Q::Id(3)), HOp::Commit, HOp::DropReopen(true), HOp::DelTerm(Q::Id(4)), HOp::Merge(3), HOp::Add(5), HOp::Commit] },
         // clean delete_all: equals replay
         Case { config: cfg(2, 1), ops: vec![HOp::Add(1), HOp::Add(2), HOp::Commit, HOp::DropReopen(true), HOp::DeleteAll, HOp::Add(3), HOp::Commit, HOp::Add(4), HOp::Rollback, HOp::DeleteAll, HOp::Commit] },
         // delete only earlier, same segment / other segment / committed segment
